@@ -400,6 +400,11 @@ func bodySchemaAsAttrTypes(bodySchema *schema.BodySchema) map[string]cty.Type {
 }
 
 func (d *PathDecoder) collectInferredReferenceTargetsForBody(addr lang.Address, bAddrSchema *schema.BlockAddrSchema, body hcl.Body, bodySchema *schema.BodySchema, selfRefBodyRangePtr *hcl.Range, selfRefAddr lang.Address) reference.Targets {
+	if bodySchema == nil {
+		// nothing to infer without a schema (e.g. block schema without body)
+		return make(reference.Targets, 0)
+	}
+
 	var (
 		refs             = make(reference.Targets, 0)
 		collectLocalAddr = false
@@ -614,6 +619,10 @@ func (d *PathDecoder) collectInferredReferenceTargetsForBody(addr lang.Address, 
 		}
 
 		for i, b := range bCollection.Blocks {
+			if len(b.Labels) == 0 {
+				// block is missing the label which serves as the map key
+				continue
+			}
 			elemAddr := append(blockAddr.Copy(), lang.IndexStep{
 				Key: cty.StringVal(b.Labels[0]),
 			})
